@@ -92,6 +92,19 @@ CHECKS["C19"] = dict(
     ref="DESIGN.md 5 C19",
 )
 
+CHECKS["C01"] = dict(
+    text="Totality and time bound under a simulated environment: the root document (token soup, damaged and torn sheets, nesting sweeps to depth 100; text or decodable bytes with or without BOM / @charset) is parsed through every default entry point with seeded parser options while a simulated fetcher serves an import graph (tree, DAG, cycle, self-import) with faults (None, (None, None), torn documents, undecodable bytes, text instead of bytes); the pipeline parse -> serialise in raise mode -> serialise in log mode -> reparse -> serialise must not raise anything, must stay inside a tick budget measured by a deterministic clock (entries into functions of the tree under test), and the number of fetches must stay bounded by the import edges.",
+    note="The fetcher / cycle / torn-document clauses and the time bound are decided by simulation; the token x state x nesting product is reached through generated content (input generation, labelled as such). Loops inside C code are only covered by the parent's wall-clock watchdog. Sampling, not proof.",
+    technique="deterministic simulation with fault injection: seeded fetch-fault and cycle injection under a deterministic tick clock (sys.monitoring), watchdog-backed",
+    ref="DESIGN.md 5 C01",
+)
+CHECKS["C03"] = dict(
+    text="Crash-recovery style check with cssText as the only durable form: a sheet parsed from a well-formed generated source (both quote kinds, backslashes, CSS escapes, line breaks, non-ASCII, comments at rule and declaration level, namespaces, nested @media, @page with margin boxes) is driven through a seeded history of accepted DOM edits; Restart steps (serialise, drop everything, reparse - directly, through a scratch file, or served by the simulated network) and NodeRestart steps (text of one rule / declaration block / selector list / media list / property value set on a fresh object) must give an equal projection and byte-identical text.",
+    note="Equality modulo the documented default preferences (empty rules are not serialised); white space items inside selectors are not compared; @variables are not generated. One recorded known finding (comments inside margin boxes). Input spellings are only as good as the renderer (input generation). Sampling, not proof.",
+    technique="deterministic simulation: seeded edit histories with restart (serialise / drop / reparse) and node-restart steps against projection equality and byte fixpoint",
+    ref="DESIGN.md 5 C03",
+)
+
 PENDING = {'C01': "check not built yet in this round (claimed by DESIGN.md section 2; will move to 'checks' when its simulation world exists)", 'C03': "check not built yet in this round (claimed by DESIGN.md section 2; will move to 'checks' when its simulation world exists)", 'C08': "check not built yet in this round (claimed by DESIGN.md section 2; will move to 'checks' when its simulation world exists)", 'C09': "check not built yet in this round (claimed by DESIGN.md section 2; will move to 'checks' when its simulation world exists)", 'C10': "check not built yet in this round (claimed by DESIGN.md section 2; will move to 'checks' when its simulation world exists)", 'C11': "check not built yet in this round (claimed by DESIGN.md section 2; will move to 'checks' when its simulation world exists)", 'C12': "check not built yet in this round (claimed by DESIGN.md section 2; will move to 'checks' when its simulation world exists)", 'C14': "check not built yet in this round (claimed by DESIGN.md section 2; will move to 'checks' when its simulation world exists)", 'C15': "check not built yet in this round (claimed by DESIGN.md section 2; will move to 'checks' when its simulation world exists)", 'C16': "check not built yet in this round (claimed by DESIGN.md section 2; will move to 'checks' when its simulation world exists)", 'C17': "check not built yet in this round (claimed by DESIGN.md section 2; will move to 'checks' when its simulation world exists)", 'C19': "check not built yet in this round (claimed by DESIGN.md section 2; will move to 'checks' when its simulation world exists)"}
 
 
